@@ -366,7 +366,13 @@ def handleFixedRoundtrip (s : Sess) (i : Nat) (op impl : Json) : Json :=
     -- the derived protocol name is a function of the protocol number (the harness builds it with `ProtocolTypes::from`)
     let pn := recL.indexOf "protocol_number"
     let pt := recL.indexOf "protocol_type"
-    let rs := rs0.map fun r => r.set pt (c.t.protoFromU8 (r.getD pn 0))
+    -- "raw_pt": the harness takes the (derived) protocol_type from slot 14 instead of deriving it from protocol_number
+    let rawPt := getBoolD op "raw_pt" false
+    let rs := rs0.map fun r => r.set pt (c.t.protoFromU8 (if rawPt then r.getD pt 0 else r.getD pn 0))
+    -- finding classes: a structure whose DERIVED fields (version, protocol_type) do not carry what the parser would put there
+    let classes : List String :=
+      (if h.getD 0 0 != v then ["c08-struct-version-field"] else []) ++
+      (if rs.any (fun r => r.getD pt 0 != c.t.protoFromU8 (r.getD pn 0)) then ["c08-struct-protocol-type-field"] else [])
     let expected : Packet := if v == 5 then .v5 h rs else .v7 h rs
     let bytes := exportFixed hdrL recL hO rO h rs
     let (_, mout) := parseBytesM c {} bytes
@@ -377,7 +383,7 @@ def handleFixedRoundtrip (s : Sess) (i : Nat) (op impl : Json) : Json :=
       Json.mkObj [("i", i), ("kind", "parse"), ("corr", d.isEmpty), ("diff", jsonOfList d),
         ("oracle", Json.mkObj [("C08", Json.bool (ipk == [expected]))]), ("model_oracle", Json.mkObj [("C08", Json.bool (mpk == [expected]))]),
         ("returned", true), ("nontrivial", true), ("digest", (hash (toString (toJson ipk))).toNat), ("tags", jsonOfList (ipk.map pktTag)),
-        ("impl_outcome", "done"), ("model_outcome", "done"), ("len", bytes.length)]
+        ("impl_outcome", "done"), ("model_outcome", "done"), ("len", bytes.length), ("classes", jsonOfList classes)]
     | _, _ => Json.mkObj [("i", i), ("kind", "parse"), ("corr", false), ("diff", jsonOfList ["undecodable"]), ("oracle", Json.mkObj []), ("returned", true)]
   | _, _ => Json.mkObj [("i", i), ("bad", "fixed_roundtrip")]
 
